@@ -318,6 +318,11 @@ func init() {
 				if !(res.prevTxOK && res.version == 2 && res.nOut == 1 && res.toWallet && res.addrOK && pub && tx.TxHash().String() == txid) {
 					l = "BAD " + l + fmt.Sprintf(" published=%s", b01(pub))
 				}
+				// a transaction whose only output is not positive (fee + 200 sat eat the whole swap output) is invalid;
+				// the adapter must refuse to build it
+				if len(tx.TxOut) == 1 && tx.TxOut[0].Value <= 0 {
+					l = "BAD non-positive-output " + l
+				}
 				hist["btc "+kind+" built"]++
 				emit(op, modelPart(l))
 				continue
